@@ -379,8 +379,8 @@ for side, cf, il in (("left", "common_first_exon", "isoform_first_exon"), ("righ
              canary="len(result) == 1")
 
 
-@finite("C01.matching_presets", ["C01"], note="isoquant.set_matching_options for the four presets: delta = 0 / 4 / 6 / 12 as documented, "
-        "--delta overrides only delta, the terminal tolerances are 50 / 300 and apa_delta = 50 for every preset")
+@finite("C01.matching_presets", ["C01", "C13"], note="isoquant.set_matching_options for the four presets: delta = 0 / 4 / 6 / 12 as documented, "
+        "--delta (incl. --delta 0) overrides only delta, the terminal tolerances are 50 / 300 and apa_delta = 50 for every preset")
 def c01_presets(tier, rng):
     from contracts import pipeline_harness as H
     from argparse import Namespace
@@ -389,7 +389,7 @@ def c01_presets(tier, rng):
     obl = dis = 0
     viol = []
     for name, d in want.items():
-        for override in (None, 3):
+        for override in (None, 3, 0):
             obl += 1
             a = Namespace(matching_strategy=name, delta=override, resolve_ambiguous="default")
             try:
@@ -404,7 +404,7 @@ def c01_presets(tier, rng):
             else:
                 viol.append({"obligation": "C01.preset.%s.%s" % (name, override), "inputs": {"preset": name, "delta": override},
                              "observed": str(got), "required": "documented tolerances"})
-    return {"obligations": obl, "discharged": dis, "violations": viol, "cases": obl, "exhaustive": True, "bound": "4 presets x {default, --delta 3}",
+    return {"obligations": obl, "discharged": dis, "violations": viol, "cases": obl, "exhaustive": True, "bound": "4 presets x {default, --delta 3, --delta 0}",
             "samples": [{"preset": "default", "delta": 6}]}
 
 
